@@ -27,10 +27,11 @@ ASSUMPTIONS = ['fields wider than 40 bits with non-zero scale are skipped (float
                'half-unit bound checked with slack 1e-9 units; half-way inputs may round either way',
                'any exception counts as refusal']
 BUDGET = {'quick': 50, 'thorough': 600}
-REQUIRED = {'quick': {'values_bound_checked': 15000, 'out_of_range_refused': 1500, 'fixpoint_own': 400,
-                      'fixpoint_foreign': 60, 'contexts_with_203': 20, 'compressed_values_checked': 4000, 'string_values_checked': 300},
-            'thorough': {'values_bound_checked': 250000, 'out_of_range_refused': 30000, 'fixpoint_own': 8000,
-                         'fixpoint_foreign': 1500, 'contexts_with_203': 500, 'compressed_values_checked': 100000}}
+REQUIRED = {'quick': {'values_bound_checked': 11000, 'out_of_range_refused': 1500, 'fixpoint_own': 220,
+                      'fixpoint_foreign': 60, 'contexts_with_203': 20, 'compressed_values_checked': 4000,
+                      'string_values_checked': 210},
+            'thorough': {'values_bound_checked': 130000, 'out_of_range_refused': 30000, 'fixpoint_own': 4000,
+                      'fixpoint_foreign': 1500, 'contexts_with_203': 500, 'compressed_values_checked': 100000}}
 
 
 def anchors():
